@@ -76,7 +76,7 @@ const vmFuel = 3000 // chunks of 1000 opcodes
 func stressPatterns() []string {
 	return []string{
 		`(?:a?b?c?d?e?f?g?h?i?j?k?)*z`, `(?:ab?)*c`, `(a|b)*z`, `(\w)*z`, `(?:(a)|(b)|(c))*d`, `(?:a??b??c??)*?z`,
-		`((a)*b?)*c`, `(?:a{0,3}b{1,2}?)*c`, `(?>(?:a?b?)*)z`, `(?=(?:a?b?)*z)a`, `(?:(?<x>a)|(?<-x>b))*c`, `(?<![ab]*c)(?:a|b)*z`,
+		`((a)*b?)*c`, `(?:a{0,3}b{1,2}?)*c`, `(?>(?:a?b?)*)z`, `(?=(?:a?b?)*z)a`, `(?:(?<x>a)|(?<-x>b))*c`, `(?<![ab]*c)(?:a|b)*z`, `(?<u>a)(?<=(?<g-u>a)aa)\\k<g>`, `(?<a>a)+(?<b-a>b)+\\k<b>?c`, `(?<o>\\()*[^()]*(?<c-o>\\))*`, `(?<x>a)(?<y-x>b)(?(y)c|d)`, `(?:(?<o>a)|(?<c-o>b))+`, `^(?:(?<o>a)|(?<-o>b))+=\\k<o>$`, `(?:(?<o>a)|(?<c-o>b)|c)*(?(o)x|y)`,
 	}
 }
 
@@ -139,6 +139,12 @@ func legVM(c *Ctx) {
 			}
 			var inputs [][]rune
 			if pp.ast == nil {
+				allStrings([]rune{'a', 'b'}, 6, func(x []rune) {
+					if len(x) >= 4 && c.Rng.Chance(60) {
+						inputs = append(inputs, x)
+					}
+				})
+				inputs = append(inputs, []rune("ab=a"), []rune("aab=a"), []rune("abab=a"), []rune("aabab=a"))
 				for _, n := range []int{0, 1, 3, 8, 12, 13, 16, 31, 40} {
 					inputs = append(inputs, []rune(strings.Repeat("ab", n)+"z"), []rune(strings.Repeat("abcdefghijk", n)+"z"), []rune(strings.Repeat("ab", n)+"c"), []rune(strings.Repeat("abc", n)+"d"))
 				}
